@@ -650,12 +650,14 @@ def attribute_table(ctx):
     if am:
         f = am[0]
         isr = None
-        for c in f.calls(lambda r: r['path'] and r['path'].endswith('SemanticState::add_item')):
-            e = f.expr_of_operand(c['term']['args'][1])
-            if e[0] == 'agg' and dict(e[2]).get('category', ('x', ''))[1].endswith('ItemCategory::Extern'):
-                for x in walk(e):
-                    if isinstance(x, tuple) and x[0] == 'agg' and x[1].endswith('ItemStateResolved'):
-                        isr = dict(x[2])
+        for h_ in method_family(P, am[0], exclude=('SemanticState::add_item',)):
+            for c in h_.calls(lambda r: r['path'] and r['path'].endswith('SemanticState::add_item')):
+                e = h_.expr_of_operand(c['term']['args'][1])
+                if e[0] == 'agg' and dict(e[2]).get('category', ('x', ''))[1].endswith('ItemCategory::Extern'):
+                    for x in walk(e):
+                        if isinstance(x, tuple) and x[0] == 'agg' and x[1].endswith('ItemStateResolved'):
+                            isr = dict(x[2])
+                            f = h_
         if isr:
             def src_var(e):
                 for x in walk(e):
